@@ -19,7 +19,7 @@ var propC11 = &pProp{
 		if tier == "thorough" {
 			return pParams{batches: 8, grammars: 400, inputs: 8, optSets: 3, extra: 40}
 		}
-		return pParams{grammars: 96, inputs: 4, optSets: 2, extra: 12}
+		return pParams{grammars: 160, inputs: 4, optSets: 2, extra: 12}
 	},
 	accept: func(gp *genParser) bool {
 		return gp.G.HasKind(gen.Action) || gp.G.HasKind(gen.AndCode) || gp.G.HasKind(gen.NotCode) || gp.G.HasKind(gen.State)
